@@ -18,6 +18,8 @@ pub struct MemoryAreas {
   pub io: IO,
 
   pub oam_dma: Option<DMAState>,
+  /// Last value written to the OAM DMA register (0xff46)
+  pub oam_dma_page: u8,
 
   rom_mapped: bool,
 }
@@ -67,6 +69,7 @@ impl MemoryAreas {
       io: IO::new(),
 
       oam_dma: None,
+      oam_dma_page: 0xff,
 
       rom_mapped: false,
     }
@@ -99,6 +102,7 @@ impl MemoryAreas {
 
       io: IO::new(),
       oam_dma: None,
+      oam_dma_page: 0xff,
 
       rom_mapped: true,
     }
@@ -232,7 +236,7 @@ pub extern "sysv64" fn memory_read_byte(areas: *const MemoryAreas, addr: u16) ->
   }
   if addr < 0xff80 { // I/O
     if addr == 0xff46 {
-      // TODO: OAM should return last written value
+      return memory_areas.oam_dma_page;
     } else {
       return memory_areas.io.get_byte(addr);
     }
@@ -288,6 +292,7 @@ pub extern "sysv64" fn memory_write_byte(areas: *mut MemoryAreas, addr: u16, val
   if addr < 0xff80 { // I/O
     if addr == 0xff46 {
       let source = (value as usize) << 8;
+      memory_areas.oam_dma_page = value;
       memory_areas.oam_dma = Some(
         DMAState {
           source,
